@@ -29,6 +29,108 @@ FORMATS = {"int": ["", "d", "05d", "x", ">8", "+,"], "float": ["", ".3f", "e", "
            "bytes": [""], "bool": ["", "d", ">6", "x"]}
 
 
+def _np():
+    import numpy as np
+    return np
+
+
+def _consumers():
+    import base64
+    import decimal
+    import fractions
+    import hashlib
+    import io
+    import json
+    import re
+    import struct
+    import zlib
+    np = _np()
+    small = lambda x: -2 ** 62 < x < 2 ** 62  # noqa: E731
+    c = {}
+    c["int"] = [
+        ("json.dumps", json.dumps), ("json.dumps-in-list", lambda x: json.dumps({"k": [x, x]})), ("math.floor", math.floor), ("math.trunc", math.trunc),
+        ("math.isqrt", lambda x: math.isqrt(x)), ("math.gcd", lambda x: math.gcd(x, 12)), ("divmod", lambda x: divmod(x, 3)), ("rdivmod", lambda x: divmod(1000, x)),
+        ("round:-1", lambda x: round(x, -1)), ("Fraction", lambda x: fractions.Fraction(x)), ("Fraction-pair", lambda x: fractions.Fraction(x, 7)),
+        ("Decimal", lambda x: str(decimal.Decimal(x))), ("complex", complex), ("range", lambda x: len(range(x)) if abs(x) < 10 ** 6 else "n/a"),
+        ("percent-format", lambda x: "%d|%5.2f|%s|%x|%r" % (x, x, x, abs(x), x) if small(x) else "%d|%s" % (x, x)),
+        ("str.format", lambda x: "{0}|{0:d}|{0!r}|{0:08b}".format(x)), ("struct.pack", lambda x: struct.pack(">q", x)), ("bit_count", lambda x: x.bit_count()),
+        ("as_integer_ratio", lambda x: x.as_integer_ratio()), ("real-imag", lambda x: (x.real, x.imag, x.numerator, x.denominator, x.conjugate())),
+        ("np.asarray", lambda x: (np.asarray([x, 1]).dtype.str, np.asarray([x, 1]).tolist()) if small(x) else "n/a"), ("np.int64", lambda x: int(np.int64(x))),
+        ("np.add", lambda x: (type(np.add(x, 1)).__name__, int(np.add(x, 1))) if small(x) else "n/a"), ("sum", lambda x: sum([x, x, 1])),
+        ("max-min", lambda x: (max(x, 3), min(x, 3))), ("chr", lambda x: chr(x)), ("bytes-of", lambda x: bytes([x])), ("list-mul", lambda x: [0] * x if 0 <= x < 100 else "n/a"),
+        ("slice", lambda x: list(range(10))[x:] if abs(x) < 100 else "n/a"), ("str.zfill", lambda x: "7".zfill(x) if 0 <= x < 100 else "n/a"),
+        ("int.to_bytes-little", lambda x: x.to_bytes(20, "little", signed=True)), ("float-pow", lambda x: 2.0 ** x if abs(x) < 1000 else "n/a"),
+        ("hex-oct-bin", lambda x: (hex(x), oct(x), bin(x))), ("dict-cross-lookup", lambda x: ({int(x): "v"}.get(x), {x: "v"}.get(int(x)))),
+        ("set-dedupe", lambda x: len({x, int(x), float(x) if small(x) else x})), ("isinstance-numbers", lambda x: _numbers(x)),
+        ("Decimal-arith", lambda x: str(decimal.Decimal(3) + x)), ("math.fsum", lambda x: math.fsum([x, 0.5]) if small(x) else "n/a"),
+        ("pow-mod", lambda x: pow(3, abs(x) % 50, 7)), ("bool-context", lambda x: "t" if x else "f"), ("str.join-of-str", lambda x: ",".join(map(str, [x, x]))),
+    ]
+    c["float"] = [
+        ("json.dumps", json.dumps), ("math.floor", math.floor), ("math.ceil", math.ceil), ("math.isnan-isinf", lambda x: (math.isnan(x), math.isinf(x), math.isfinite(x))),
+        ("math.frexp", math.frexp), ("math.modf", math.modf), ("math.copysign", lambda x: math.copysign(1.0, x)), ("Fraction", lambda x: fractions.Fraction(x)),
+        ("Decimal", lambda x: str(decimal.Decimal(x))), ("complex", lambda x: repr(complex(x))), ("percent-format", lambda x: "%f|%e|%g|%s|%r|%.3f" % (x, x, x, x, x, x)),
+        ("str.format", lambda x: "{0}|{0:.2e}|{0!r}|{0:10.4f}".format(x)), ("struct.pack", lambda x: struct.pack(">d", x)), ("struct.pack-f", lambda x: struct.pack(">f", x)),
+        ("hex", lambda x: x.hex()), ("is_integer", lambda x: x.is_integer()), ("as_integer_ratio", lambda x: x.as_integer_ratio()),
+        ("np.asarray", lambda x: (np.asarray([x, 1.0]).dtype.str, repr(np.asarray([x, 1.0]).tolist()))), ("np.float64", lambda x: repr(float(np.float64(x)))),
+        ("np.float32", lambda x: _quiet(lambda: repr(float(np.float32(x))))), ("np.add", lambda x: (type(np.add(x, 1.0)).__name__, repr(float(np.add(x, 1.0))))),
+        ("sum", lambda x: sum([x, x, 1.0])), ("max-min", lambda x: (max(x, 3.0), min(x, 3.0))), ("divmod", lambda x: divmod(x, 2.5)), ("round:2", lambda x: round(x, 2)),
+        ("math.sqrt", lambda x: math.sqrt(abs(x))), ("math.fsum", lambda x: math.fsum([x, 0.5])), ("dict-cross-lookup", lambda x: ({float(x): "v"}.get(x), {x: "v"}.get(float(x))) if not math.isnan(x) else "n/a"),
+        ("isinstance-numbers", lambda x: _numbers(x)), ("real-imag", lambda x: (x.real, x.imag, x.conjugate())), ("int-of", lambda x: int(x)),
+        ("bool-context", lambda x: "t" if x else "f"), ("sorted-with-key", lambda x: sorted([3.0, x, -1.0], key=abs) if not math.isnan(x) else "n/a"),
+    ]
+    c["str"] = [
+        ("json.dumps", json.dumps), ("json.dumps-key", lambda x: json.dumps({x: x})), ("percent-format", lambda x: "%s|%r|%5s|%-3s" % (x, x, x, x)),
+        ("str.format", lambda x: "{0}|{0!r}|{0:>4}".format(x)), ("join", lambda x: ",".join([x, x])), ("encode-utf16", lambda x: x.encode("utf-16-be")),
+        ("encode-ascii", lambda x: x.encode("ascii")), ("center", lambda x: x.center(7, "*")), ("strip", lambda x: x.strip("a")), ("replace", lambda x: x.replace("a", "bb")),
+        ("find-count", lambda x: (x.find("b"), x.count("a"), x.rfind("c"))), ("predicates", lambda x: (x.isdigit(), x.isalpha(), x.isidentifier(), x.isprintable(), x.isascii())),
+        ("casefold", lambda x: x.casefold()), ("sorted", lambda x: sorted(x)), ("re.match", lambda x: bool(re.match(r"a.*", x))), ("re.sub", lambda x: re.sub("b", "-", x)),
+        ("np.asarray", lambda x: np.asarray([x, "zz"]).tolist()), ("translate", lambda x: x.translate({97: "A"})), ("partition", lambda x: x.partition("b")),
+        ("int-of", lambda x: int(x)), ("float-of", lambda x: float(x)), ("dict-cross-lookup", lambda x: ({str(x): "v"}.get(x), {x: "v"}.get(str(x)))),
+        ("StringIO", lambda x: (io.StringIO(x).read(), io.StringIO().write(x))), ("title-swap", lambda x: (x.title(), x.swapcase(), x.capitalize())),
+        ("zfill-expandtabs", lambda x: (x.zfill(5), x.expandtabs(2))), ("splitlines", lambda x: x.splitlines()), ("len-bool", lambda x: (len(x), bool(x))),
+        ("mul-add", lambda x: (x * 3, x + "z", "z" + x)), ("in-dict", lambda x: x in {"a": 1, "": 2}), ("getattr-name", lambda x: getattr(_Holder, x, "none") if x.isidentifier() else "n/a"),
+        ("bytes-of", lambda x: bytes(x, "utf-8")), ("ord", lambda x: ord(x)), ("eq-hash-with-plain", lambda x: (x == str(x), hash(x) == hash(str(x)))),
+        ("fstring-repr", lambda x: f"{x!r:>8}|{x!s:<3}|{x!a}"), ("slice-step", lambda x: (x[:2], x[-1:], x[::2])), ("removeprefix", lambda x: (x.removeprefix("a"), x.removesuffix("c"))),
+    ]
+    c["bytes"] = [
+        ("hex", lambda x: x.hex()), ("join", lambda x: b",".join([x, x])), ("bytearray", lambda x: bytearray(x)), ("memoryview", lambda x: memoryview(x).tobytes()),
+        ("decode-utf8", lambda x: x.decode("utf-8")), ("int.from_bytes-little", lambda x: int.from_bytes(x, "little")), ("base64", lambda x: base64.b64encode(x)),
+        ("crc32", lambda x: zlib.crc32(x)), ("sha1", lambda x: hashlib.sha1(x).hexdigest()), ("find-count", lambda x: (x.find(b"b"), x.count(b"a"))),
+        ("replace-split", lambda x: (x.replace(b"a", b"zz"), x.split(b"b"))), ("strip-partition", lambda x: (x.strip(b"a"), x.partition(b"b"))),
+        ("np.frombuffer", lambda x: np.frombuffer(x, dtype=np.uint8).tolist()), ("BytesIO", lambda x: io.BytesIO(x).read()), ("concat", lambda x: (x + b"z", b"z" + x)),
+        ("percent-format", lambda x: b"%s|%b" % (x, x)), ("translate", lambda x: x.translate(None, b"a")), ("predicates", lambda x: (x.isalnum(), x.isascii(), x.isdigit())),
+        ("fromhex-roundtrip", lambda x: bytes.fromhex(x.hex())), ("struct.unpack", lambda x: struct.unpack(">H", x)), ("dict-cross-lookup", lambda x: ({bytes(x): "v"}.get(x), {x: "v"}.get(bytes(x)))),
+        ("len-bool", lambda x: (len(x), bool(x))), ("list-of", lambda x: list(x)), ("mul", lambda x: x * 2), ("eq-hash-with-plain", lambda x: (x == bytes(x), hash(x) == hash(bytes(x)))),
+        ("zlib", lambda x: zlib.decompress(zlib.compress(x))), ("str-repr", lambda x: (repr(x), x.__str__() if False else repr(x))), ("slice-step", lambda x: (x[:2], x[-1:], x[::2])),
+        ("bytes.maketrans", lambda x: bytes.maketrans(x[:1], b"z") if x else "n/a"), ("endswith", lambda x: x.endswith((b"c", b"\xff"))),
+    ]
+    c["bool"] = [
+        ("bool:if", lambda x: "t" if x else "f"), ("bool:not", lambda x: not x), ("bool:and-or", lambda x: (bool(x and "y"), bool(x or 0), (x and "y") or "n")), ("bool:str.format", lambda x: "{0}|{0!s}|{0!r}".format(x)),
+        ("bool:percent-s", lambda x: "%s|%r" % (x, x)), ("percent-d", lambda x: "%d" % x), ("list-index", lambda x: [10, 11][x]), ("sum", lambda x: sum([x, x])),
+        ("int-of", int), ("float-of", float), ("mul-str", lambda x: "ab" * x), ("bool:filter", lambda x: len(list(filter(None, [x])))), ("bool:all-any", lambda x: (all([x]), any([x]))),
+        ("np.where", lambda x: np.where(bool(x), 1, 0).tolist()),
+    ]
+    return c
+
+
+def _quiet(fn):
+    with _np().errstate(all="ignore"):
+        return fn()
+
+
+class _Holder:
+    a = 1
+    abc = 2
+
+
+def _numbers(x):
+    import numbers
+    return (isinstance(x, numbers.Number), isinstance(x, numbers.Integral), isinstance(x, numbers.Real), isinstance(x, numbers.Rational))
+
+
+CONSUMERS = _consumers()
+
+
 def same(a, b):
     """Equal as built-in values: same built-in family (a subclass instance counts as its base), NaN- and sign-aware."""
     if isinstance(a, (tuple, list)) and isinstance(b, (tuple, list)):
@@ -99,10 +201,88 @@ def operations(kind, others):
     return ops
 
 
-def check_values(t: Tally):
+def exercise(t: Tally, p, v, kind, case, ops, others, got_raw):
+    """Everything that is done with one parameter value `p` whose plain built-in counterpart is `v`."""
+    for name, fn in ops:
+        if name == "hash" and isinstance(v, float) and math.isnan(v):
+            continue  # hash(nan) is identity based since Python 3.10
+        plain = v
+        if kind == "bool" and name.split(":")[0] in ("add", "sub", "mul", "floordiv", "mod", "truediv", "pow", "neg", "abs", "and", "or", "xor",
+                                                   "lshift", "rshift", "radd", "rsub", "rmul", "rfloordiv", "rmod", "rtruediv", "rpow",
+                                                   "invert", "to_bytes", "index", "int", "float", "round", "bit_length"):
+            plain = int(v)  # arithmetic like the int it is backed by
+        a = attempt(lambda: fn(p))
+        b = attempt(lambda: fn(plain))
+        t.evals += 1
+        ok = a[0] == b[0] and (same(a[1], b[1]) if a[0] == "ok" else a[1] == b[1])
+        if ok and a[0] == "ok" and kind == "bool" and name.split(":")[0] in ("and", "or", "xor") :
+            ok = True
+        if ok and a[0] == "ok" and type(a[1]) is not type(b[1]):
+            # results of operations are plain built-ins in both cases, except that bool & int gives int
+            ok = isinstance(a[1], type(b[1])) or isinstance(b[1], type(a[1]))
+        t.outcomes[f"{kind}:{a[0]}"] += 1
+        if not ok:
+            t.violation({"kind": "operation-differs", "class": kind, "op": name.split(":")[0]}, {**case, "op": name},
+                        expected=repr(b), observed=repr(a))
+    # sorting a mixed list of parameter values and built-ins
+    if kind in ("int", "float", "str", "bytes") and not (isinstance(v, float) and math.isnan(v)):
+        mixed = [p] + list(others if kind not in ("float",) else [0.0, 1.5, 2])
+        plainl = [v] + list(others if kind not in ("float",) else [0.0, 1.5, 2])
+        if kind == "int":
+            mixed, plainl = [p, 0, 1, 7, 2.5], [v, 0, 1, 7, 2.5]
+        a = attempt(lambda: [repr(x) for x in sorted(mixed)])
+        b = attempt(lambda: [repr(x) for x in sorted(plainl)])
+        t.evals += 1
+        if a != b:
+            t.violation({"kind": "operation-differs", "class": kind, "op": "sorted"}, {**case, "op": "sorted"}, expected=b, observed=a)
+    # copies
+    copies = [("copy", copy.copy), ("deepcopy", copy.deepcopy)] + [(f"pickle{pr}", lambda x, pr=pr: pickle.loads(pickle.dumps(x, protocol=pr)))
+                                                                    for pr in range(0, pickle.HIGHEST_PROTOCOL + 1)]
+    for cname, cf in copies:
+        r = attempt(lambda: cf(p))
+        t.evals += 1
+        bad = None
+        if r[0] != "ok":
+            bad = f"{cname} raised {r[1]}"
+        else:
+            q = r[1]
+            if type(q) is not type(p):
+                bad = f"{cname} changed the class to {type(q).__name__}"
+            elif not same(base_type(v)(q) if kind != "bool" else bool(q), v):
+                bad = f"{cname} changed the value to {q!r}"
+            elif not (same(getattr(q, "raw_value", "<missing>"), got_raw) and type(getattr(q, "raw_value", None)) is type(got_raw)):
+                bad = f"{cname} changed raw_value to {getattr(q, 'raw_value', '<missing>')!r}"
+        if bad:
+            t.violation({"kind": "copy-differs", "class": kind, "copy": cname.rstrip("012345")}, {**case, "copy": cname}, observed=bad)
+    # consumers from the standard library (and numpy): whatever accepts the built-in accepts the parameter value, with the same result
+    for name, fn in CONSUMERS[kind]:
+        a = attempt(lambda: fn(p))
+        b = attempt(lambda: fn(v if kind != "bool" or name.startswith("bool:") else int(v)))
+        t.evals += 1
+        ok = a[0] == b[0] and (same(a[1], b[1]) if a[0] == "ok" else a[1] == b[1])
+        t.outcomes[f"{kind}:consumer:{a[0]}"] += 1
+        if not ok:
+            t.violation({"kind": "consumer-differs", "class": kind, "consumer": name}, {**case, "consumer": name}, expected=repr(b)[:200], observed=repr(a)[:200])
+
+
+def value_sets(tier):
+    if tier == "quick":
+        return INTS, FLOATS, STRS, BYTES
+    import struct
+    ints = sorted(set(INTS) | {s * (2 ** k + d) for k in range(0, 72, 3) for d in (-1, 0, 1) for s in (1, -1)} | {10 ** 18, -10 ** 30, 255, 256, 65535})
+    floats = list(FLOATS) + [struct.unpack(">d", struct.pack(">Q", b))[0] for b in (0x0010000000000000, 0x000FFFFFFFFFFFFF, 0x3FF0000000000001, 0x7FEFFFFFFFFFFFFE,
+                                                                                 0xBFE0000000000000, 0x4340000000000000, 0x4340000000000001, 0x3FB999999999999A,
+                                                                                 0xC08F400000000000, 0x7FF8000000000001)] + [0.1, 1e16, 123456.789, -1e-7, 2.5, 0.5]
+    strs = list(STRS) + ["A", " a ", "\n", "a\tb", "ab\u0301", "\u00df", "ABC", "0", "12", "-3.5", "\u4e2d\u6587", "a" * 70, "\ud7ff", "nan", "True", "{}", "%s"]
+    byts = list(BYTES) + [b"\x00\x00", b"\xff", b" a ", b"0", b"12", bytes(range(256)), b"a" * 70, b"%s", b"\n", b"\x80\x00"]
+    return ints, floats, strs, byts
+
+
+def check_values(t: Tally, tier="quick"):
     from space_packet_parser import common
-    classes = {"int": (common.IntParameter, INTS), "float": (common.FloatParameter, FLOATS), "str": (common.StrParameter, STRS),
-               "bytes": (common.BinaryParameter, BYTES), "bool": (common.BoolParameter, BOOLS)}
+    ints, floats, strs, byts = value_sets(tier)
+    classes = {"int": (common.IntParameter, ints), "float": (common.FloatParameter, floats), "str": (common.StrParameter, strs),
+               "bytes": (common.BinaryParameter, byts), "bool": (common.BoolParameter, BOOLS)}
     for kind, (cls, vals) in classes.items():
         others = {"int": [0, 1, 7, 2.5, True], "float": [0.0, 1.5, 2, math.nan, math.inf], "str": ["", "a", "b"], "bytes": [b"", b"a"],
                   "bool": [False, True, 0, 1, 2]}[kind]
@@ -132,57 +312,7 @@ def check_values(t: Tally):
                 if not raw_ok:
                     t.violation({"kind": "raw-value", "class": kind, "falsy_raw": not bool(want_raw) if not isinstance(want_raw, float) else want_raw == 0},
                                 case, expected=repr(want_raw), observed=repr(got_raw))
-                for name, fn in ops:
-                    if name == "hash" and isinstance(v, float) and math.isnan(v):
-                        continue  # hash(nan) is identity based since Python 3.10
-                    plain = v
-                    if kind == "bool" and name.split(":")[0] in ("add", "sub", "mul", "floordiv", "mod", "truediv", "pow", "neg", "abs", "and", "or", "xor",
-                                                               "lshift", "rshift", "radd", "rsub", "rmul", "rfloordiv", "rmod", "rtruediv", "rpow",
-                                                               "invert", "to_bytes", "index", "int", "float", "round", "bit_length"):
-                        plain = int(v)  # arithmetic like the int it is backed by
-                    a = attempt(lambda: fn(p))
-                    b = attempt(lambda: fn(plain))
-                    t.evals += 1
-                    ok = a[0] == b[0] and (same(a[1], b[1]) if a[0] == "ok" else a[1] == b[1])
-                    if ok and a[0] == "ok" and kind == "bool" and name.split(":")[0] in ("and", "or", "xor") :
-                        ok = True
-                    if ok and a[0] == "ok" and type(a[1]) is not type(b[1]):
-                        # results of operations are plain built-ins in both cases, except that bool & int gives int
-                        ok = isinstance(a[1], type(b[1])) or isinstance(b[1], type(a[1]))
-                    t.outcomes[f"{kind}:{a[0]}"] += 1
-                    if not ok:
-                        t.violation({"kind": "operation-differs", "class": kind, "op": name.split(":")[0]}, {**case, "op": name},
-                                    expected=repr(b), observed=repr(a))
-                # sorting a mixed list of parameter values and built-ins
-                if kind in ("int", "float", "str", "bytes") and not (isinstance(v, float) and math.isnan(v)):
-                    mixed = [p] + list(others if kind not in ("float",) else [0.0, 1.5, 2])
-                    plainl = [v] + list(others if kind not in ("float",) else [0.0, 1.5, 2])
-                    if kind == "int":
-                        mixed, plainl = [p, 0, 1, 7, 2.5], [v, 0, 1, 7, 2.5]
-                    a = attempt(lambda: [repr(x) for x in sorted(mixed)])
-                    b = attempt(lambda: [repr(x) for x in sorted(plainl)])
-                    t.evals += 1
-                    if a != b:
-                        t.violation({"kind": "operation-differs", "class": kind, "op": "sorted"}, {**case, "op": "sorted"}, expected=b, observed=a)
-                # copies
-                copies = [("copy", copy.copy), ("deepcopy", copy.deepcopy)] + [(f"pickle{pr}", lambda x, pr=pr: pickle.loads(pickle.dumps(x, protocol=pr)))
-                                                                                for pr in range(0, pickle.HIGHEST_PROTOCOL + 1)]
-                for cname, cf in copies:
-                    r = attempt(lambda: cf(p))
-                    t.evals += 1
-                    bad = None
-                    if r[0] != "ok":
-                        bad = f"{cname} raised {r[1]}"
-                    else:
-                        q = r[1]
-                        if type(q) is not type(p):
-                            bad = f"{cname} changed the class to {type(q).__name__}"
-                        elif not same(base_type(v)(q) if kind != "bool" else bool(q), v):
-                            bad = f"{cname} changed the value to {q!r}"
-                        elif not (same(getattr(q, "raw_value", "<missing>"), got_raw) and type(getattr(q, "raw_value", None)) is type(got_raw)):
-                            bad = f"{cname} changed raw_value to {getattr(q, 'raw_value', '<missing>')!r}"
-                    if bad:
-                        t.violation({"kind": "copy-differs", "class": kind, "copy": cname.rstrip("012345")}, {**case, "copy": cname}, observed=bad)
+                exercise(t, p, v, kind, case, ops, others, got_raw)
 
 
 def check_interference(t: Tally):
@@ -218,6 +348,159 @@ def check_interference(t: Tally):
         if repr(x) != repr(type(pair[0])(pair[0]) if cls is not common.IntParameter else int(pair[0])) or \
                 repr(y) != repr(type(pair[1])(pair[1]) if cls is not common.IntParameter else int(pair[1])):
             t.violation({"kind": "values-interfere", "class": "equal-but-distinct"}, {"pair": repr(pair)}, observed=(repr(x), repr(y)))
+
+
+def check_pairs(t: Tally, tier="quick"):
+    """Two parameter values meeting each other (both carry raw values): every binary operation gives what the two built-ins give."""
+    from space_packet_parser import common
+    num = [(common.IntParameter, v) for v in INTS] + [(common.FloatParameter, v) for v in FLOATS] + [(common.BoolParameter, v) for v in BOOLS]
+    binops = [("eq", operator.eq), ("ne", operator.ne), ("lt", operator.lt), ("le", operator.le), ("gt", operator.gt), ("ge", operator.ge), ("add", operator.add),
+              ("sub", operator.sub), ("mul", operator.mul), ("truediv", operator.truediv), ("floordiv", operator.floordiv), ("mod", operator.mod),
+              ("divmod", divmod), ("max", max), ("min", min), ("hash-eq", lambda a, b: hash(a) == hash(b)), ("set-size", lambda a, b: len({a, b})),
+              ("dict-overwrite", lambda a, b: len({a: 1, b: 2})), ("tuple-lt", lambda a, b: (a, 1) < (b, 2)), ("sorted", lambda a, b: [repr(float(x)) for x in sorted([a, b])]),
+              ("pow-small", lambda a, b: a ** b if abs(a) < 100 and abs(b) < 8 else "n/a"), ("and", operator.and_), ("or", operator.or_), ("xor", operator.xor),
+              ("lshift", lambda a, b: a << b if 0 <= b < 70 else "n/a")]
+    raws = [None, 0, b"\x00", "r"]
+    for i, (ca, va) in enumerate(num):
+        for j, (cb, vb) in enumerate(num):
+            ra, rb = raws[(i + j) % 4], raws[(i * 3 + j + 1) % 4]
+            a, b = ca(va, ra), cb(vb, rb)
+            pa = int(va) if ca is common.BoolParameter else va
+            pb = int(vb) if cb is common.BoolParameter else vb
+            nanny = any(isinstance(x, float) and math.isnan(x) for x in (va, vb))
+            for name, op in binops:
+                if nanny and name in ("hash-eq", "set-size", "dict-overwrite", "sorted", "max", "min", "tuple-lt"):  # identity-based for NaN
+                    continue
+                x = attempt(lambda: op(a, b))
+                y = attempt(lambda: op(pa, pb))
+                t.evals += 1
+                ok = x[0] == y[0] and (same(x[1], y[1]) if x[0] == "ok" else x[1] == y[1])
+                t.outcomes[f"pair:{x[0]}"] += 1
+                if not ok:
+                    t.violation({"kind": "pair-operation-differs", "op": name, "classes": f"{ca.__name__}/{cb.__name__}"},
+                                {"a": repr(va), "b": repr(vb), "raw_a": repr(ra), "raw_b": repr(rb), "op": name, "classes": [ca.__name__, cb.__name__]},
+                                expected=repr(y)[:160], observed=repr(x)[:160])
+            t.nontrivial += 1
+    seqs = [(common.StrParameter, STRS, ["", "a", "ab"]), (common.BinaryParameter, BYTES, [b"", b"a", b"ab"])]
+    sops = [("eq", operator.eq), ("lt", operator.lt), ("ge", operator.ge), ("concat", operator.add), ("contains", lambda a, b: b in a), ("startswith", lambda a, b: a.startswith(b)),
+            ("join", lambda a, b: a.join([b, b])), ("split", lambda a, b: a.split(b) if b else "n/a"), ("replace", lambda a, b: a.replace(b, a[:1])), ("find", lambda a, b: a.find(b)),
+            ("count", lambda a, b: a.count(b)), ("strip", lambda a, b: a.strip(b)), ("hash-eq", lambda a, b: hash(a) == hash(b)), ("set-size", lambda a, b: len({a, b})),
+            ("sorted", lambda a, b: sorted([a, b])), ("partition", lambda a, b: a.partition(b) if b else "n/a"), ("max", max)]
+    for cls, vals, extra in seqs:
+        allv = list(vals) + extra
+        for i, va in enumerate(allv):
+            for j, vb in enumerate(allv):
+                a, b = cls(va, raws[(i + j) % 4]), cls(vb, raws[(i + 2 * j + 1) % 4])
+                for name, op in sops:
+                    x = attempt(lambda: op(a, b))
+                    y = attempt(lambda: op(va, vb))
+                    t.evals += 1
+                    ok = x[0] == y[0] and (same(x[1], y[1]) if x[0] == "ok" else x[1] == y[1])
+                    if not ok:
+                        t.violation({"kind": "pair-operation-differs", "op": name, "classes": cls.__name__},
+                                    {"a": repr(va), "b": repr(vb), "op": name, "classes": [cls.__name__, cls.__name__]}, expected=repr(y)[:160], observed=repr(x)[:160])
+                t.nontrivial += 1
+
+
+def check_containers(t: Tally):
+    """Values inside ordinary containers: copying or pickling the container keeps values, raw values, classes and the sharing structure."""
+    from space_packet_parser import common
+    a = common.IntParameter(7, 3)
+    b = common.FloatParameter(-0.0, b"\x80\x00")
+    c = common.StrParameter("", 0)
+    d = common.BinaryParameter(b"\x00", "")
+    e = common.BoolParameter(False, 0.0)
+    objs = {
+        "list-shared": [a, a, b, [c, d, e], (a, e)],
+        "dict-keys-values": {a: b, c: d, "k": e, 7.5: a},
+        "tuple": (a, b, c, d, e),
+        "set": {a, c, d},
+        "nested-dict": {"x": {"y": [a, {"z": (b, c)}]}, "again": a},
+    }
+    copies = [("copy", copy.copy), ("deepcopy", copy.deepcopy)] + [(f"pickle{pr}", lambda x, pr=pr: pickle.loads(pickle.dumps(x, protocol=pr)))
+                                                                    for pr in range(0, pickle.HIGHEST_PROTOCOL + 1)]
+
+    def describe(o, ids):
+        if isinstance(o, dict):
+            return ("dict", tuple((describe(k, ids), describe(v, ids)) for k, v in o.items()))
+        if isinstance(o, (list, tuple)):
+            return (type(o).__name__, tuple(describe(x, ids) for x in o))
+        if isinstance(o, (set, frozenset)):
+            return ("set", tuple(sorted((describe(x, None) for x in o), key=repr)))
+        rv = getattr(o, "raw_value", "<none>")
+        me = (type(o).__name__, repr(o), type(rv).__name__, repr(rv))
+        if ids is not None and hasattr(o, "raw_value"):
+            me += (ids.setdefault(id(o), len(ids)),)   # sharing structure: the n-th distinct parameter object
+        return me
+    for oname, o in objs.items():
+        want = describe(o, {})
+        for cname, cf in copies:
+            r = attempt(lambda: cf(o))
+            t.evals += 1
+            t.nontrivial += 1
+            if r[0] != "ok":
+                t.violation({"kind": "container-copy-differs", "copy": cname.rstrip("012345")}, {"container": oname, "copy": cname}, observed=f"raised {r[1]}")
+                continue
+            got = describe(r[1], {})
+            if got != want:
+                t.violation({"kind": "container-copy-differs", "copy": cname.rstrip("012345")}, {"container": oname, "copy": cname}, expected=repr(want)[:300], observed=repr(got)[:300],
+                            note="values, raw values, classes or the sharing structure changed")
+
+
+def _task_parsed(task):
+    """Values as the decoder produces them (every field kind of the palette), not just values built by hand."""
+    from mc.checks import c01
+    from mc.observe import plain
+    from mc.spec import load_doc
+    import warnings
+    t = Tally()
+    pats = dict(c01.base_patterns())
+    for i in range(24):
+        pats[f"mul{i}"] = bytes((j * (2 * i + 3) + 17 * i) & 0xFF for j in range(320))
+    fams = {"int": [0, 1, 7, 2.5, True], "float": [0.0, 1.5, 2, math.nan, math.inf], "str": ["", "a", "b"], "bytes": [b"", b"a"], "bool": [False, True, 0, 1, 2]}
+    opsets = {k: operations(k, v) for k, v in fams.items()}
+    seen = set()
+    for ki in task["kinds"]:
+        try:
+            with case_alarm(300):
+                doc = c01.compose((ki,), 1)
+                defn = load_doc(doc)
+                for pn in task["patterns"]:
+                    pkt, o = c01.fit(doc, 1, pats[pn])
+                    if o.kind != "parsed":
+                        continue
+                    with warnings.catch_warnings():
+                        warnings.simplefilter("ignore")
+                        out = list(defn.packet_generator(pkt))
+                    if len(out) != 1:
+                        continue
+                    for name, p in out[0].items():
+                        if name in ("VERSION", "TYPE", "SEC_HDR_FLG", "SEQ_FLGS", "SRC_SEQ_CTR", "PKT_LEN") and (ki, pn) != (task["kinds"][0], task["patterns"][0]):
+                            continue  # header values are the same for every kind
+                        v = plain(p)
+                        cname = type(p).__name__
+                        kind = {"IntParameter": "int", "FloatParameter": "float", "StrParameter": "str", "BinaryParameter": "bytes", "BoolParameter": "bool"}.get(cname)
+                        case = {"parsed": True, "field_kind": c01.pal()[ki].name, "pattern": pn, "name": name, "class": cname, "value": repr(v)[:80]}
+                        t.evals += 1
+                        if kind is None:
+                            t.violation({"kind": "not-a-parameter-value-class", "class": cname}, case, observed=cname,
+                                        note="a decoded value is not an instance of one of the five value classes")
+                            continue
+                        if kind == "bool":
+                            v = bool(int.__int__(p))
+                        if not hasattr(p, "raw_value"):
+                            t.violation({"kind": "raw-value", "class": kind, "parsed": True}, case, observed="no raw_value attribute")
+                            continue
+                        key = (kind, repr(v), repr(plain(p.raw_value)))
+                        if key in seen:
+                            continue
+                        seen.add(key)
+                        t.nontrivial += 1
+                        exercise(t, p, v, kind, case, opsets[kind], fams[kind], p.raw_value)
+                t.programs += 1
+        except BaseException as e:  # noqa: BLE001
+            t.violation({"kind": "part-aborted", "part": "parsed-values", "exc": type(e).__name__}, {"field_kind": ki}, observed=repr(e)[:300])
+    return t
 
 
 def check_packets(t: Tally):
@@ -294,10 +577,20 @@ def check_packets(t: Tally):
 
 def run(ctx):
     t = Tally()
-    for part in (check_values, check_interference, check_packets):
+    from mc.checks import c01
+    from mc.kernel import chunked, fan_out
+    nk = len(c01.pal())
+    pnames = list(c01.base_patterns()) if not ctx.quick else ["index", "ones", "zeros", "small"]
+    if not ctx.quick:
+        pnames += [f"mul{i}" for i in range(24)]
+    t.merge(fan_out(_task_parsed, [{"kinds": ch, "patterns": pnames} for ch in chunked(list(range(nk)), 4)], jobs=ctx.jobs, seed=ctx.seed))
+    for part in (check_values, check_interference, check_packets, check_pairs, check_containers):
         try:
-            with case_alarm(600):
-                part(t)
+            with case_alarm(1800):
+                if part is check_values:
+                    part(t, ctx.tier)
+                else:
+                    part(t)
         except BaseException as e:  # noqa: BLE001 - a corrupted value class can make anything fail; keep what was found so far
             t.violation({"kind": "part-aborted", "part": part.__name__, "exc": type(e).__name__}, {"part": part.__name__}, observed=repr(e)[:300],
                         note="the library failed in an unexpected place while this part of the check was running")
@@ -305,8 +598,13 @@ def run(ctx):
     t.sample({"packet": "parsed A packet with cursor at end", "copies": ["copy", "deepcopy", "pickle0..5"]})
     coverage = {
         "exhaustive": True,
-        "bound": (f"values: {len(INTS)} ints, {len(FLOATS)} floats (signed zeros, infinities, NaN, min subnormal, max), {len(STRS)} strs, {len(BYTES)} bytes, 2 bools "
-                  f"x {len(RAWS)} raw values (omitted and every falsy kind) x ~60-110 operations each x 8 copies; 6 packets (parsed clean / flagged, cursor mid-way, "
+        "bound": (f"values decoded by the library from packets of every field kind of the palette ({nk} kinds x {len(pnames)} payload patterns; each distinct "
+                  "(class, value, raw value) once) and values built by hand: "
+                  f"{len(value_sets(ctx.tier)[0])} ints, {len(value_sets(ctx.tier)[1])} floats (signed zeros, infinities, NaN, min subnormal, max), "
+                  f"{len(value_sets(ctx.tier)[2])} strs, {len(value_sets(ctx.tier)[3])} bytes, 2 bools "
+                  f"x {len(RAWS)} raw values (omitted and every falsy kind) x ~60-110 operations each + 14-46 standard-library/numpy consumers (json, struct, math, Fraction, Decimal, %-formatting, re, hashing across "
+                  "parameter/plain keys, ...) x 8 copies; every ordered pair of numeric values (int, float, bool classes mixed) x 25 binary operations and every pair of "
+                  "str / bytes values x 17 operations with both operands parameter values; 5 container shapes (shared references, dict keys, sets, nesting) x 8 copies; 6 packets (parsed clean / flagged, cursor mid-way, "
                   "cached header properties, empty) x 8 copies"),
         "rule": "one evaluation = one operation or copy compared with the built-in; distinct non-trivial = distinct (class, value, raw) triples and packet copies",
     }
@@ -315,9 +613,17 @@ def run(ctx):
 
 
 def replay(case):
+    from mc import kernel
+    kernel.MAX_PER_SIGNATURE = 10 ** 6
     t = Tally()
-    check_values(t)
-    check_packets(t)
+    if case.get("parsed"):
+        from mc.checks import c01
+        ki = [i for i, k in enumerate(c01.pal()) if k.name == case["field_kind"]]
+        t = _task_parsed({"kinds": ki, "patterns": [case["pattern"]]})
+    else:
+        check_values(t, "thorough")
+        for part in (check_interference, check_packets, check_pairs, check_containers):
+            part(t)
     for v in t.violations:
         if all(v["case"].get(k) == case.get(k) for k in case):
             return v
